@@ -380,6 +380,11 @@ def r16_5(ctx):
                             prod = ('first', c)
                         elif nm in ('np.rollaxis', 'np.moveaxis') and len(c.args) >= 3:
                             cons = c
+                        elif nm in ('np.swapaxes', 'np.transpose') and prod is not None:
+                            ctx.violated('R16.5', 'pyiga.tensor.modek_tprod', '%s after %s' % (src(c), call_name(prod[1])), c,
+                                         'the producer leaves the new axis %s with the OTHER axes in their original order; putting it back needs a '
+                                         'cyclic move (moveaxis / rollaxis).  %s exchanges two axes, which is the same only for k <= 1: for k >= 2 the '
+                                         'leading axes come out permuted' % (prod[0], nm))
             if prod and cons:
                 srcpos = cons.args[1]
                 want = -1 if prod[0] == 'last' else 0
